@@ -202,9 +202,9 @@ REQUIRED = {
     "C01": _CONC_MODELS + [("linearization search", 20), ("_pair_", 2), ("_collapse2_", 3), ("_splitdrain_", 2)],
     "C02": [("exhaustive sequential model", 1), ("random walks of the sequential model", 1), ("trace seed=", 8), ("longsplit=1", 1), ("splitsweep=1", 1), ("isplitlen=1", 1)],
     "C03": [("exhaustive sequential model", 1), ("trace seed=", 6), ("mode=deep", 1)],
-    "C04": [("YkConc program", 2), ("YkConc4 config", 2), ("step-level conformance program", 2), ("step-level conformance of split under a parent", 2), ("linearization search", 25), ("_links_", 2), ("_layerfull_pre1", 2), ("_pair_", 3)],
+    "C04": [("YkConc program", 2), ("YkConc4 config", 2), ("step-level conformance program", 2), ("step-level conformance of split under a parent", 2), ("YkConc8 config", 2), ("step-level conformance of scans through a next-layer link", 3), ("linearization search", 25), ("_links_", 2), ("_layerfull_pre1", 2), ("_pair_", 3)],
     "C05": [("exhaustive sequential model", 1), ("exhaustive sequential cursor model", 1), ("mode=linksonly", 2), ("pdrain=", 1), ("ppair=", 1), ("mode=deep", 1)],
-    "C06": [("YkConc program C", 1), ("YkConc4 config", 2), ("step-level conformance program C", 1), ("step-level conformance of split under a parent", 2), ("linearization search", 25), ("_links_", 2)],
+    "C06": [("YkConc program C", 1), ("YkConc4 config", 2), ("YkConc8 config", 2), ("step-level conformance program C", 1), ("step-level conformance of split under a parent", 2), ("step-level conformance of scans through a next-layer link", 3), ("linearization search", 25), ("_links_", 2)],
     "C07": [("YkEpoch", 1), ("epoch trace", 3), ("_stall", 1)],
     "C08": _CONC_MODELS + [("exhaustive sequential model", 1), ("trace seed=", 6), ("splitsweep=1", 1), ("linearization search", 20), ("_pair_", 2), ("_chain_", 2), ("_collapse2_", 3), ("_splitdrain_", 2)],
     "C09": _CONC_MODELS + [("linearization search", 25), ("_pair_", 2), ("_chain_", 2), ("_collapse2_", 3), ("_splitdrain_", 2)],
